@@ -280,7 +280,7 @@ impl Sub for TimeCtors {
 
 /// RFC 3339 date-time with upper-case 'T' and 'Z' (or numeric offset), years 0000-9999, 0-30 fraction digits, optional leap second
 fn rfc3339_text() -> BoxedStrategy<String> {
-  (0i64..=9999, 1u32..=12, prop_oneof![6 => 1u32..=28, 3 => 29u32..=31], 0u32..24, 0u32..60, prop_oneof![9 => 0u32..60, 1 => Just(60u32)], proptest::collection::vec(0u8..10, 0..=30), prop_oneof![Just(None), (-1439i32..=1439).prop_map(Some)])
+  (0i64..=9999, 1u32..=12, prop_oneof![6 => 1u32..=28, 3 => 29u32..=31], 0u32..24, 0u32..60, prop_oneof![9 => 0u32..60, 1 => Just(60u32)], proptest::collection::vec(0u8..10, 0..=30), prop_oneof![4 => Just(None), 12 => (-1439i32..=1439).prop_map(Some), 1 => Just(Some(i32::MIN)), 1 => Just(Some(0))])
     .prop_map(|(y, mo, d, h, mi, se, frac, off)| {
       // the last days of a month exist or not depending on month and year: clamp to the calendar
       let d = d.min(days_in_month(y, mo));
@@ -294,6 +294,8 @@ fn rfc3339_text() -> BoxedStrategy<String> {
       }
       match off {
         None => s.push('Z'),
+        // RFC 3339 section 4.3: "-00:00" = UTC, local offset unknown
+        Some(i32::MIN) => s.push_str("-00:00"),
         Some(o) => {
           s.push(if o < 0 { '-' } else { '+' });
           s.push_str(&format!("{:02}:{:02}", o.abs() / 60, o.abs() % 60));
@@ -332,6 +334,29 @@ fn calendar_edge_cases() -> Vec<TimeCtorCase> {
     }
   }
   v
+}
+
+/// a well-formed RFC 3339 date-time whose DATE part is spoilt so that it is no ISO 8601 date any more: a sign, a blank
+/// or a letter inside the year, month or day field (field widths kept)
+fn spoilt_date() -> BoxedStrategy<String> {
+  (rfc3339_text(), 0u8..12).prop_map(|(t, kind)| {
+    let (y, rest) = t.split_at(4);
+    let (mo, d, tail) = (&rest[1..3], &rest[4..6], &rest[6..]);
+    match kind {
+      0 => format!("+{}-{mo}-{d}{tail}", &y[1..]),
+      1 => format!("-{}-{mo}-{d}{tail}", &y[1..]),
+      2 => format!("{y}-+{}-{d}{tail}", &mo[1..]),
+      3 => format!("{y}--{}-{d}{tail}", &mo[1..]),
+      4 => format!("{y}-{mo}-+{}{tail}", &d[1..]),
+      5 => format!("{y}-{mo}--{}{tail}", &d[1..]),
+      6 => format!("{} {}-{mo}-{d}{tail}", &y[..2], &y[3..]),
+      7 => format!("{y}- {}-{d}{tail}", &mo[1..]),
+      8 => format!("{y}-{mo}- {}{tail}", &d[1..]),
+      9 => format!("{y}-{}x-{d}{tail}", &mo[..1]),
+      10 => format!("{}O{}-{mo}-{d}{tail}", &y[..1], &y[2..]),
+      _ => format!("{y}-{mo}-{}l{tail}", &d[..1]),
+    }
+  }).boxed()
 }
 
 /// strings whose first four characters are not all ASCII digits and which do not begin with a sign
@@ -396,6 +421,7 @@ pub fn run(ctx: &Ctx) -> EvidenceMeta {
     Box::new(|| ctx.prop(&decorated, decorated_key(), ctx.n(30_000, 300_000))),
     Box::new(|| ctx.prop(&tc, (rfc3339_text(), any::<u8>()).prop_map(|(text, b)| TimeCtorCase { text, valid: true, through_token: b % 8 == 0 }), ctx.n(30_000, 300_000))),
     Box::new(|| ctx.enumerate(&tc, calendar_edge_cases().into_iter(), false)),
+    Box::new(|| ctx.prop(&tc, spoilt_date().prop_map(|text| TimeCtorCase { text, valid: false, through_token: false }), ctx.n(12_000, 120_000))),
     Box::new(|| ctx.enumerate(&sweep, byte_truncation_confusables().into_iter(), false)),
     Box::new(|| ctx.prop(&tc, not_a_date().prop_map(|text| TimeCtorCase { text, valid: false, through_token: false }), ctx.n(20_000, 200_000))),
     Box::new(|| {
@@ -415,7 +441,7 @@ pub fn run(ctx: &Ctx) -> EvidenceMeta {
     rule: "custom-claim keys: every string of length <= 4 over the 16-symbol alphabet {letters of iss/sub/aud/exp/nbf/iat/jti, 'E', space, NUL} (69,905 keys, exhaustive), every lower-case key of 1-3 letters (18,278, exhaustive), 40 claim names in common use elsewhere, every key obtained from a reserved key by replacing one character with a code point congruent to it modulo 256 (about 91 000), and generated case/whitespace/NUL/combining-mark/BOM decorations of the reserved keys and random Unicode keys, \
            each through the three constructor forms (&str; (&str, T); (String, T)) with T in {&str, i64, bool, Vec, struct, serde_json::Value, Option}; oracle: Err(Reserved(k)) iff the key is exactly one of the seven, otherwise Ok with get_key() unchanged, and (sampled) the value arrives under that key through a built token. \
            time claims: generated RFC 3339 date-times (upper-case T/Z or numeric offset, years 0000-9999, every day of the calendar, 0-30 fraction digits, leap seconds; every 29 February of the years 0000-9999 and every month end of ten chosen years) into the &str and String forms of ExpirationClaim/NotBeforeClaim/IssuedAtClaim: Ok, stored verbatim, verbatim in the token payload; \
-           strings whose first four characters are not all ASCII digits and that do not begin with a sign: Err(RFC3339Date). Non-trivial = key within edit distance 1 of a reserved key, or a time string with an offset/fraction or from the must-reject domain; distinct by input."
+           strings whose first four characters are not all ASCII digits and that do not begin with a sign, and RFC 3339 strings whose date part is spoilt by a sign, blank or letter inside the year / month / day field: Err(RFC3339Date). Non-trivial = key within edit distance 1 of a reserved key, or a time string with an offset/fraction or from the must-reject domain; distinct by input."
       .into(),
     assumptions: vec!["strings between the accepted and the must-reject domain (e.g. ISO 8601 forms that are not RFC 3339) are not judged".into()],
   }
